@@ -1,5 +1,6 @@
 """Per-property configuration: which theorem file, which suites, which oracles."""
 import json
+import os
 
 import common
 import engine_corr
@@ -35,22 +36,90 @@ PROPS = {
 
 
 def replay(run, scratch, path, cfg):
-    """re-run one stored case on the current tree"""
+    """re-run one stored violation on the current tree: exit 1 iff it still reproduces.
+    Engine / backtest / report cases are re-run alone (correspondence + the oracle that failed); for the other kinds
+    (sessions, scheduler and stack cases, kernel post-conditions, broken theorems) the property's quick check is re-run
+    with the recorded seed, which regenerates the same inputs."""
+    import backtest_corr
     obj = json.load(open(path))
+    pid = obj.get("property", run.pid)
     case = obj.get("case")
-    if case is None:
-        print("replay file carries no case:", obj.get("broken"))
-        return 1
-    r = engine_corr.run_cases([case], scratch)[0]
-    print("correspondence:", r[1], json.dumps(r[2]))
-    bad = r[1] == "diff"
-    if r[3]:
-        mults = oracles.mults_of_case(case)
-        for k in range(1, len(r[3]["steps"])):
-            f = oracles.c01_balance_sheet(case, r[3]["steps"][k]["state"], mults)
-            if f and k in oracles.observed_steps(case, r[3]):
-                print("oracle:", f[:3])
-                bad = True
+    bad = False
+    bt_oracles = {"C02": oracles.c02_attribution, "C03": oracles.c03_index, "C06": oracles.c06_rebalance, "C07": oracles.c07_ledger,
+                  "C14": oracles.c14_selection, "C15": oracles.c15_weights, "C16": oracles.c16_bankruptcy,
+                  "C17": oracles.c17_fixed_income, "C20": oracles.c20_risk}
+    if isinstance(case, dict) and "ops" in case and "nrows" in case:
+        r = engine_corr.run_cases([case], scratch)[0]
+        print("correspondence:", r[1], json.dumps(r[2])[:400])
+        bad = r[1] == "diff"
+        if r[3]:
+            mults = oracles.mults_of_case(case)
+            if pid == "C01":
+                for k in range(1, len(r[3]["steps"])):
+                    f = oracles.c01_balance_sheet(case, r[3]["steps"][k]["state"], mults)
+                    if f and k in oracles.observed_steps(case, r[3]):
+                        print("oracle:", f[:3])
+                        bad = True
+            if pid == "C07":
+                f = oracles.c07_trade_booking(case, r[3], suites.comm_fee)
+                if f:
+                    print("oracle:", f[:3])
+                    bad = True
+            if pid == "C05" and "_meta" in case:
+                f = suites.c05_oracle(case, r[3])
+                if f:
+                    print("oracle:", f[:3])
+                    bad = True
+            want = obj.get("expected")
+            if want:
+                errs = [st["status"][2] for st in r[3]["steps"] if len(st["status"]) > 2 and st["status"][1] == "err"]
+                got = errs[0] if errs else "no-error"
+                print("expected error", want, "got", got)
+                bad = bad or got != want
+    elif isinstance(case, dict) and "dates" in case:
+        c = dict(case, reports=True, report_error_date=True)
+        di = common.parse_dump(common.run_impl(scratch, "impl_reports.py", json.dumps([c])))
+        dm = common.parse_dump(common.run_model(common.bt_case_to_sexp(c)))
+        ic, mc = di.get(c["name"]), dm.get(c["name"])
+        extra = {}
+        for st in ic["steps"]:
+            for key in list(st["state"]):
+                if key.startswith(("REP ", "ERRAT ")):
+                    extra[key] = st["state"].pop(key)
+                elif key.startswith(("RV ", "RT ")):
+                    extra[key] = st["state"][key]
+        if c.get("peek"):
+            v, d = common.compare_case(suites.reports_and_histories(ic), suites.reports_and_histories(mc))
+        else:
+            v, d = common.compare_case(ic, mc)
+        print("correspondence:", v, json.dumps(d)[:400])
+        bad = v == "diff"
+        if ic["steps"][-1]["status"][1] == "ok":
+            fn = bt_oracles.get(pid)
+            if fn:
+                f = fn(c, ic)
+                if f:
+                    print("oracle:", f[:3])
+                    bad = True
+            if pid == "C18":
+                f = oracles.c18_reports(c, ic, extra)
+                if f:
+                    print("oracle:", f[:3])
+                    bad = True
+        elif pid == "C10" and obj.get("suite", "").startswith("wellformed"):
+            print("status:", ic["steps"][-1]["status"])
+            bad = True
+    else:
+        import subprocess
+        seed = str(obj.get("seed", run.seed))
+        print("no single re-runnable case in this replay file (%s): re-running ./check %s --tier quick with seed %s"
+              % (obj.get("broken") or obj.get("suite"), pid, seed))
+        p = subprocess.run([os.path.join(common.VERIF, "check"), pid, "--tier", "quick"],
+                           env=dict(os.environ, VERIF_SEED=seed, BT_VERIF_EVIDENCE_DIR=os.path.join(common.VERIF, "work", "evidence_replay")),
+                           capture_output=True, text=True)
+        print(p.stdout[-1500:])
+        return 1 if p.returncode != 0 else 0
+    print("REPRODUCED" if bad else "not reproduced on the current tree")
     return 1 if bad else 0
 
 
@@ -216,6 +285,9 @@ def run_c13(run, scratch, seed, tier):
     n = sizes(tier, 150, 2500)
     bst = backtest_suite(run, scratch, seed, n)
     run.add_suite("backtest_runs", bst)
+    import gen_backtest
+    ost = backtest_suite(run, scratch, seed + 7, sizes(tier, 150, 2500), name="out_of_bounds_runs", gen=gen_backtest.gen_oob_cases)
+    run.add_suite("out_of_bounds_runs", ost)
 
 
 PROPS["C13"] = {"props_file": "C13.v", "run": run_c13}
@@ -447,9 +519,13 @@ def run_c04(run, scratch, seed, tier):
     run.add_suite("backtest_runs", bst)
     fst = backtest_suite(run, scratch, seed + 3, sizes(tier, 80, 1500), name="fi_suite", gen=gen_fi_cases)
     run.add_suite("fi_suite", fst)
+    import gen_backtest
+    # UpdateRisk reads unit-risk frames that carry their own date index: it must read the row of the current date
+    rst = backtest_suite(run, scratch, seed + 5, sizes(tier, 100, 2000), name="risk_suite", gen=gen_backtest.gen_risk_cases)
+    run.add_suite("risk_suite", rst)
 
 
-PROPS["C04"] = {"props_file": "C04.v", "run": run_c04}
+PROPS["C04"] = {"props_file": "C04.v", "run": run_c04, "level": "other"}
 
 
 # ---------------------------------------------------------------- C20
